@@ -58,7 +58,7 @@ func init() {
 		for _, jwt := range []bool{false, true} {
 			p := Profile{JWTAccess: jwt, RTLifespan: 7200}
 			specs = append(specs, FamSpec{Prop: "C08", Profile: p, Depth: depth, MaxGrants: 2, Grants: grants,
-				RedeemBy: []string{"owner"}, RefreshBy: []string{"owner"}, RevokeBy: []string{"owner", "other", "badsecret"}, Hints: []string{"", "access_token", "refresh_token", "garbage"},
+				RedeemBy: []string{"owner"}, RefreshBy: []string{"owner"}, RevokeBy: []string{"owner", "other", "casevariant", "badsecret"}, Hints: []string{"", "access_token", "refresh_token", "garbage"},
 				Advances: []int{3700}})
 		}
 		r.Bounds = map[string]any{"history_depth": depth, "max_grants": 2, "strategies": []string{"hmac", "jwt"},
